@@ -580,6 +580,16 @@ func vfGenResetSpecs(tier string, seed uint64, race bool) []vfSpec {
 			sp.X["incarnations"] = int64(r.Pick(1, 2))
 		}
 		sp.XS = map[string]string{"fault": fk, "sizes": []string{"small", "mixed", "tiny", "boundary"}[r.Intn(4)]}
+		if (fk == "delay-data" || fk == "reorder" || fk == "dup-reconfig") && r.Intn(2) == 0 {
+			// the data in front of the first close straddles the 2^32 TSN wrap: the request's "last assigned TSN" lies
+			// beyond the wrap while the receiver's cumulative TSN may still be in front of it
+			n := uint32(sp.X["q"]*sp.X["streams"]) + 2 //nolint:gosec
+			side := &sp.A
+			side.InitTSN = ^uint32(0) - n + 1 + uint32(r.Intn(int(n/2)+2)) //nolint:gosec
+			if sp.XS["sizes"] == "mixed" || sp.XS["sizes"] == "boundary" {
+				sp.XS["sizes"] = "small"
+			}
+		}
 		out = append(out, sp)
 	}
 
